@@ -69,6 +69,11 @@ CHECKS = {
     note="Trusted: TLC, NN.tla (PyTorch definitions), drv_nn.cpp. softmax/softmin, normalisation layers, bilinear, pairwise_distance and cosine_similarity are NOT decided (exp/sqrt/division are outside TLC). Four input classes are known findings.",
     technique="TLA+ reference semantics (exact integer sums) + TLC law checking of the size formulas; trace validation of the real routines by TLC",
     design="5/C17"),
+ "C10": dict(
+    text="Programs.tla is the program machine: a chain of view operations over a leaf whose arguments are chosen from the shape of the intermediate result; its meaning is the composition of the reference semantics (Denote.RunProg). TLC checks 'fused = staged for every split', well-formedness and 'Nothing is final' on every program of the bounded alphabet and exports the programs; the driver builds the composed view type for every program (continuation-passing dispatch, one binary per first operation) and runs it lazily, with the row-major and column-major result resolvers, into a caller-supplied output and staged after every prefix; TraceOps.tla validates all variants against the same denotation.",
+    note="Trusted: TLC, Denote/Programs, drv_program.cpp. All operands are dynamic arrays (fixed/bounded result storage is C11's); no hook is needed because operand data are injective and caller-supplied outputs are pre-filled with a sentinel.",
+    technique="TLA+ program machine; TLC exhaustive enumeration (quick) / simulation (thorough) of programs; generated behaviours replayed on the real views and evaluators; trace validation by TLC",
+    design="5/C10"),
 }
 
 NOT_APPLICABLE = {}
